@@ -136,6 +136,10 @@ func (v *VM) exec() {
 		case codeGlobalSet:
 			a := v.stack[len(v.stack)-1]
 			v.stack = v.stack[:len(v.stack)-1]
+			if codes[v.frame.N].B != 0 { // an untyped constant is stored as it is
+				v.globals.Write(int(codes[v.frame.N].A), a)
+				break
+			}
 			v.globals.Assign(int(codes[v.frame.N].A), a)
 
 		case codeGlobalZero:
